@@ -9,6 +9,7 @@ pub mod c06;
 pub mod c07;
 pub mod c08;
 pub mod c09;
+pub mod c10;
 pub mod c11;
 pub mod c12;
 pub mod c13;
@@ -30,6 +31,8 @@ pub fn dispatch(id: &str, tier: Tier, seed: u64, extra: &[String]) -> i32 {
         "C07" => c07::run(&Ctx::new("C07", tier, seed)),
         "C08" => c08::run(&Ctx::new("C08", tier, seed)),
         "C09" => c09::run(&Ctx::new("C09", tier, seed)),
+        "C10" => c10::run(&Ctx::new("C10", tier, seed)),
+        "golden-write" => c10::golden_write(&Ctx::new("C10", tier, seed)),
         "C11" => c11::run(&Ctx::new("C11", tier, seed)),
         "C12" => c12::run(&Ctx::new("C12", tier, seed)),
         "C13" => c13::run(&Ctx::new("C13", tier, seed)),
